@@ -45,8 +45,8 @@ def reference(gaf, fasta, tmp):
     return open(out).read().splitlines()
 
 
-def one_schedule(R, gaf, fasta, cores, chooser, allow_death, death_codes=(-9,)):
-    world = fakemp.World(chooser, allow_death=allow_death, death_codes=death_codes)
+def one_schedule(R, gaf, fasta, cores, chooser, allow_death, death_codes=(-9,), allow_exc=False):
+    world = fakemp.World(chooser, allow_death=allow_death, death_codes=death_codes, allow_exc=allow_exc)
     out = io.StringIO()
     res = fakemp.run_with(R, world, lambda: R.realign_gaf(gaf, DATA + "smallgraph.gfa", fasta, out, cores))
     return res, out.getvalue().splitlines(), world
@@ -60,9 +60,9 @@ def judge(ck, prop, res, lines, world, ref, meta):
     groups = world.groups
     cases = []
     for g in groups:
-        batches = [[m.priority for m in p.total if m is not None] for p in g.procs]
+        batches = [list(p.batch_prios) for p in g.procs]
         cases.append({"op": "realign.run", "batches": batches, "events": g.events})
-    lost = any(p.lost for g in groups for p in g.procs)
+    lost = any(p.lost or getattr(p, "missing", 0) for g in groups for p in g.procs)
     died = any(p.exitcode not in (0, None) for g in groups for p in g.procs)
     timeouts_inflight = any(e["e"] == "pTimeout" for g in groups for e in g.events)
     replay = dict(meta, result=list(res), output=[l.split("\t")[0] for l in lines],
@@ -337,7 +337,8 @@ def main(prop):
             gaf, fasta, ref = inputs[nrec]
             ch = fakemp.Chooser(rng=ck.rng)
             codes = (-9, 1, -11) if death else (-9,)
-            res, lines, world = one_schedule(R, gaf, fasta, cores, ch, death and ck.rng.random() < 0.8, death_codes=codes)
+            exc = death and ck.rng.random() < 0.35     # the death of this run is an exception inside the worker function
+            res, lines, world = one_schedule(R, gaf, fasta, cores, ch, death and not exc and ck.rng.random() < 0.8, death_codes=codes, allow_exc=exc)
             judge(ck, prop, res, lines, world, ref, {"records": nrec, "batch": bs, "cores": cores, "choices": ch.trace})
             if len(ck.violations) > 5:
                 break
